@@ -3,7 +3,7 @@ import CJ.Drv.Util
 /-! Driver for the relay model.
 
 `halfpipe|<up>|<reads>|<writes>|<dls>|<srcClose>|<dstClose>`
-  reads  = `hex:err;hex:err;…`   writes = `accepted:err;…`   dls = `1,0,…` (call order: src, dst, src, …)
+  reads  = `hex:err;hex:err;…`   writes = `accepted:err;…`   dls = `1,0,u1,u0,…` (call order: src, dst, src, …; `u` = SetDeadline answers ENOTSUP, then SetReadDeadline ok / fails)
   err    = `-` | eof | closed | epipe | rst | refused | aborted | unreach | timeout | short | `o.<hex text>`
 answer: `T:<events>|D:<hex>|n:<counted>|cli:<hex>|cov:<hex>|c:<src closes>,<dst closes>|done:<n>|comp:<n>|logs:<n>`
 
@@ -41,14 +41,15 @@ def parseWrite (s : String) : Option WriteRes :=
   | _ => none
 
 def parseDl (s : String) : Option DlRes :=
-  if s == "1" then some .ok else if s == "0" then some .fail else none
+  if s == "1" then some .ok else if s == "0" then some .fail
+  else if s == "u1" then some (.unsupported true) else if s == "u0" then some (.unsupported false) else none
 
 def parseScript (rs ws ds sc dc : String) : Option Script := do
   some { reads := ← (fields rs ";").mapM parseRead, writes := ← (fields ws ";").mapM parseWrite,
          dls := ← (fields ds ",").mapM parseDl, srcClose := ← parseErr sc, dstClose := ← parseErr dc }
 
 def showEv : Ev → String
-  | .dl onSrc ok => "d" ++ (if onSrc then "s" else "d") ++ showBool ok
+  | .dl onSrc ok fb => "d" ++ (if onSrc then "s" else "d") ++ showBool ok ++ (if fb then "f" else "")
   | .read n err => s!"r{n}" ++ (if err then "e" else "")
   | .write o n err => s!"w{o}/{n}" ++ (if err then "e" else "")
 
